@@ -442,7 +442,18 @@ def check_predicate(ck, prog, f_pred):
     for npts in (1, 2):
         interior = pts[:npts]
         inp = Tup((Tup((ax, ay)),) + tuple(Tup(p) for p in interior) + (Tup((bx, by)),), 'list')
-        outs = Interp(prog).run(f_pred, [inp, tol])
+        it_ = Interp(prog)
+        outs0 = it_.run(f_pred, [inp, tol])
+        # a predicate may return a comparison itself (`return dist < tol`, `return not any(...)`):
+        # both truth values of the returned condition are then paths of their own
+        from ..interp import Outcome, COND_TYPES, to_cond
+        outs = []
+        for o in outs0:
+            if o.kind == 'return' and isinstance(o.value, COND_TYPES):
+                for b, s2 in it_.branch(o.value, o.state):
+                    outs.append(Outcome('return', TRUE if b else FALSE, s2))
+            else:
+                outs.append(o)
         ck.saw('paths', 'points_in_tolerance with %d interior point(s): %d paths' % (npts, len(outs)))
         for o in outs:
             if o.kind != 'return':
